@@ -323,6 +323,21 @@ def ascending(ctx):
                 ctx.check(not raises, 'C16-3.ascending', key, 'on ascending, disjoint data (%s) the predicate %s is %s: no error' % (desc, show(p2)[:120], verdict),
                           'on ascending, disjoint data (%s) the predicate %s is %s, which raises the error: valid data is rejected '
                           '(and the complementary, overlapping data accepted)' % (desc, show(p2)[:160], verdict), ctx.where(cb))
+                # and the other way round: data that is NOT in order must raise the error
+                if 'offset_start' in flds or 'offset_end' in flds:
+                    # only catenary sections must not overlap; speed restrictions may nest and overlap (their rules are order and uniqueness)
+                    bad_worlds = [('overlapping (w0.end > w1.start)', [S(0, 'offset_start').lt(S(0, 'offset_end')), S(1, 'offset_start').lt(S(1, 'offset_end')),
+                                                                           S(1, 'offset_start').lt(S(0, 'offset_end'))])] if 'CatPowerLimit' in fid else []
+                else:
+                    bad_worlds = [('equal offsets', [S(0, 'offset').eq(S(1, 'offset'))]), ('descending offsets', [S(1, 'offset').lt(S(0, 'offset'))])]
+                for wname, wf in bad_worlds:
+                    v2 = decide_bool(p2, [f.t for f in wf])
+                    k2 = key + '|' + wname.split(' (')[0]
+                    if v2 is None:
+                        ctx.unproved('C16-3.ascending', k2, 'predicate %s not decided for %s' % (show(p2)[:160], wname), ctx.where(cb)); continue
+                    raises2 = (v2 is True) == err_when_pred
+                    ctx.check(raises2, 'C16-3.ascending', k2, 'for %s the predicate is %s: the error is raised' % (wname, v2),
+                              'for %s the predicate %s is %s: no error — out-of-order data is accepted' % (wname, show(p2)[:160], v2), ctx.where(cb))
     ctx.floor('ordering predicates evaluated', n, 4)
 
 
@@ -369,6 +384,19 @@ def decide_bool(p, facts):
         v2, _ = pv.holds((neg, p[1], p[2]), facts)
         if v2 == 'PROVED':
             return False
+        # order closure over the facts as opaque atoms (a < b stated the other way round, chains)
+        from .speedprofile import _order_lt
+        a_, b_ = p[1], p[2]
+        if op == 'lt':
+            if _order_lt(a_, b_, facts): return True
+        if op == 'gt':
+            if _order_lt(b_, a_, facts): return True
+        if op == 'le':
+            if _order_lt(a_, b_, facts): return True
+            if _order_lt(b_, a_, facts): return False
+        if op == 'ge':
+            if _order_lt(b_, a_, facts): return True
+            if _order_lt(a_, b_, facts): return False
     return None
 
 
